@@ -28,8 +28,9 @@ def gen_dataset(rng, tier, kind=None, offsets=True):
     d["s_true"] = s
     d["dy"] = None if rng.random() < 0.3 else [rng.logu(1e-4, 0.1) for _ in x]
     lo, hi = min(x), max(x)
-    d["Qmin"] = None if rng.random() < 0.5 else rng.choice([lo, round(lo + (hi - lo) * rng.random(), 2), lo - 0.1, rng.uniform(lo, hi)])
-    d["Qmax"] = None if rng.random() < 0.5 else rng.choice([hi, round(lo + (hi - lo) * rng.random(), 2), hi + 0.1, rng.uniform(lo, hi)])
+    # (also: an edge exactly on the 0.01-resolution value of a point whose raw abscissa lies a hair to either side of it)
+    d["Qmin"] = None if rng.random() < 0.5 else rng.choice([lo, round(lo + (hi - lo) * rng.random(), 2), lo - 0.1, rng.uniform(lo, hi), round(x[rng.randrange(n)], 2)])
+    d["Qmax"] = None if rng.random() < 0.5 else rng.choice([hi, round(lo + (hi - lo) * rng.random(), 2), hi + 0.1, rng.uniform(lo, hi), round(x[rng.randrange(n)], 2)])
     if d["Qmin"] is not None and d["Qmax"] is not None and d["Qmin"] > d["Qmax"]:
         d["Qmin"], d["Qmax"] = d["Qmax"], d["Qmin"]
     if rng.random() < 0.5:
@@ -119,9 +120,25 @@ def run_sequence(pystog, cfg, datasets):
         for k_, v_ in (d.get("set_before") or {}).items():   # the instance's scattering lengths may change between datasets
             setattr(stog, {"bcoh": "bcoh_sqrd", "btot": "btot_sqrd"}[k_], v_)
             cur[k_] = v_
+        rej = None
+        if d.get("rejected_before"):
+            # an entry with an unknown function name is offered first; the caller catches the error and carries on
+            before = snap(stog)
+            bad = info_of(d)
+            bad["ReciprocalFunction"] = d["rejected_before"]
+            try:
+                stog.add_dataset(bad)
+                rej = "accepted"
+            except ValueError:
+                after = snap(stog)      # (the overall-range bookkeeping xmin/xmax is not part of the stored data)
+                rej = "changed" if (after["recip"], after["sq"]) != (before["recip"], before["sq"]) else "clean"
+            except Exception as e_:
+                rej = "raised %s" % type(e_).__name__
         stog.add_dataset(info_of(d))
         sn = snap(stog)
         sn["mat"] = dict(cur)
+        if rej is not None:
+            sn["rejected"] = rej
         snaps.append(sn)
     return stog, snaps
 
